@@ -67,6 +67,7 @@ func buildInstrumented(variant, scratch string) (worker string, extraEnv []strin
 		return
 	}
 	mod := strings.Replace(string(b), "=> "+"/repo", "=> "+copyDir, 1)
+	mod = strings.Replace(mod, "=> "+repoDir, "=> "+copyDir, 1)
 	mod = strings.Replace(mod, "go 1.22.0", "go 1.23", 1)
 	modfile := filepath.Join(scratch, "go.mod")
 	if err = os.WriteFile(modfile, []byte(mod), 0o644); err != nil {
